@@ -108,10 +108,9 @@ pub struct QueueRec {
 pub const PAGE: usize = 4096;
 
 pub struct World {
-    /// queue-level events: (queue index, json line)
-    pub qtrace: Vec<(u16, String)>,
-    /// driver/transport-level events
-    pub dtrace: Vec<String>,
+    /// all events in program order: (stream, queue index, json line); stream 0 = queue-level,
+    /// 1 = driver/transport/platform-level
+    pub trace: Vec<(u8, u16, String)>,
     pub dma: BTreeMap<u64, DmaRegion>,
     pub shares: BTreeMap<u64, ShareRec>,
     pub next_dma_pa: u64,
@@ -137,8 +136,7 @@ pub struct World {
 impl World {
     pub fn new() -> Self {
         World {
-            qtrace: Vec::new(),
-            dtrace: Vec::new(),
+            trace: Vec::new(),
             dma: BTreeMap::new(),
             shares: BTreeMap::new(),
             next_dma_pa: 0x0000_0012_3450_0000,
@@ -158,6 +156,7 @@ impl World {
     }
 
     pub fn qev(&mut self, q: u16, v: Value) {
+        self.drain_frees();
         if self.muted {
             // inside an unlogged (skipped) segment only anomalies are kept
             let e = v["e"].as_str().unwrap_or("");
@@ -165,10 +164,29 @@ impl World {
                 return;
             }
         }
-        self.qtrace.push((q, v.to_string()));
+        self.trace.push((0, q, v.to_string()));
+    }
+    /// queue-level events of one queue, in order
+    pub fn q_lines(&self, q: u16) -> Vec<String> {
+        self.trace.iter().filter(|(k, qq, _)| *k == 0 && *qq == q).map(|(_, _, l)| l.clone()).collect()
+    }
+    /// driver-level events plus the queue-level events whose name is in `also`
+    pub fn d_lines(&self, also: &[&str]) -> Vec<String> {
+        self.trace
+            .iter()
+            .filter(|(k, _, l)| *k == 1 || also.iter().any(|n| l.contains(&format!("\"e\":\"{}\"", n))))
+            .map(|(k, q, l)| if *k == 0 { format!("{{\"q\":{},{}", q, &l[1..]) } else { l.clone() })
+            .collect()
+    }
+    /// heap frees of memory still shared with the device, noticed by the allocator interposer
+    pub fn drain_frees(&mut self) {
+        for (q, pa) in crate::alloc::take_freed() {
+            self.trace.push((1, 0xffff, json!({"e":"FreeShared","q":q,"pa":hex(pa)}).to_string()));
+        }
     }
     pub fn dev(&mut self, v: Value) {
-        self.dtrace.push(v.to_string());
+        self.drain_frees();
+        self.trace.push((1, 0xffff, v.to_string()));
     }
 
     /// Device-side address translation: the only way the reference device reaches memory.
@@ -256,6 +274,16 @@ impl World {
             scribbled: false,
         };
         self.queues.insert(q, rec);
+        // which DMA regions hold this queue's rings (for the teardown-order guard of C09)
+        let mut seqs: Vec<usize> = vec![];
+        for pa in [desc_pa, avail_pa, used_pa] {
+            if let Some((_, r)) = self.dma.range(..=pa).next_back() {
+                if pa < r.pa + (r.pages * PAGE) as u64 && !seqs.contains(&r.seq) {
+                    seqs.push(r.seq);
+                }
+            }
+        }
+        self.dev(json!({"e":"RegionHolds","q":q,"seqs":seqs}));
     }
 
     // ---------------------------------------------------------------- recorder
@@ -658,6 +686,7 @@ pub fn reset_world() {
         }
         *w = World::new();
     });
+    crate::alloc::reset();
 }
 
 // -------------------------------------------------------------------------------- LedgerHal
@@ -691,7 +720,7 @@ unsafe impl Hal for LedgerHal {
                 Some((h, p, a, s)) => (h == vaddr.as_ptr(), p == pages, a == access_platform, s),
                 None => (false, false, false, 0),
             };
-            w.dev(json!({"e":"DmaDealloc","pa":hex(paddr),"known":known.is_some(),"seq":seq,
+            w.dev(json!({"e":"DmaDealloc","pa":hex(paddr),"pal":limbs(paddr,4),"known":known.is_some(),"seq":seq,
                          "va_ok":va_ok,"pages":pages,"pages_ok":pages_ok,"ap":access_platform,"ap_ok":ap_ok}));
             if known.is_some() && va_ok && pages_ok {
                 let r = w.dma.remove(&paddr).unwrap();
@@ -739,6 +768,7 @@ unsafe impl Hal for LedgerHal {
                 ev["image"] = Value::Array(image);
             }
             w.shares.insert(pa, ShareRec { pa, va, len, dir, ap: access_platform, bounce });
+            crate::alloc::shared_add(va, len, q, pa);
             w.qev(q, ev);
             pa
         })
@@ -755,6 +785,7 @@ unsafe impl Hal for LedgerHal {
             // specification to reject
             let matches = w.shares.get(&paddr).map(|s| s.va == va && s.len == len && s.dir == dir).unwrap_or(false);
             if matches {
+                crate::alloc::shared_remove(paddr);
                 let s = w.shares.remove(&paddr).unwrap();
                 if dir != Dir::ToDevice {
                     unsafe { std::ptr::copy_nonoverlapping(s.bounce.as_ptr(), va as *mut u8, len) };
